@@ -78,3 +78,55 @@ func TestWalkVisitsEveryEnabledSequenceOnce(t *testing.T) {
 		t.Fatalf("walk visited %d histories, guards allow %d", len(seen), want)
 	}
 }
+
+func TestOptionalWorldConfiguration(t *testing.T) {
+	a, v := osm.NodeID(1).FeatureID(), osm.WayID(5).FeatureID()
+	n1, n2, n3 := osm.NodeID(901).FeatureID(), osm.NodeID(902).FeatureID(), osm.NodeID(903).FeatureID()
+	ups := []Upload{{Changes: []Change{{ID: a}, {ID: v, SetRefs: true, Refs: []osm.FeatureID{n1, n2, n3}}}}}
+	for i := 0; i < 4; i++ {
+		ups = append(ups, Upload{Gap: time.Hour, Changes: []Change{{ID: a}, {ID: v}}})
+	}
+	// defaults: positions never zero, node lists kept
+	w := Build(Config{Regime: CommitTime}, ups)
+	for _, x := range w.Versions(a) {
+		if x.Lat == 0 || x.Lon == 0 {
+			t.Fatalf("default positions must not be zero: %+v", x)
+		}
+	}
+	for _, x := range w.Versions(v) {
+		if len(x.Refs) != 3 || x.Refs[0] != n1 {
+			t.Fatalf("default: node list changed: %+v", x)
+		}
+	}
+	// options
+	w = Build(Config{Regime: CommitTime, LocMode: LocZeros, ReverseWays: true, FirstChangeset: 1 << 33}, ups)
+	na := w.Versions(a)
+	if na[0].Lat == 0 || na[1].Lat != 0 || na[1].Lon != 0 || na[2].Lat != 0 || na[2].Lon == 0 || na[3].Lat == 0 || na[3].Lon != 0 || na[4].Lat == 0 || na[4].Lon == 0 {
+		t.Fatalf("LocZeros cycle: %+v", na)
+	}
+	first := []osm.FeatureID{}
+	for _, x := range w.Versions(v) {
+		first = append(first, x.Refs[0])
+	}
+	// version ordinals 1 and 2 reverse, ordinal 3 keeps, ordinal 4 reverses
+	want := []osm.FeatureID{n1, n3, n1, n1, n3}
+	for i := range want {
+		if first[i] != want[i] {
+			t.Fatalf("ReverseWays: first nodes %v, want %v", first, want)
+		}
+	}
+	if na[4].Changeset != 1<<33+4 {
+		t.Fatalf("FirstChangeset: %v", na[4].Changeset)
+	}
+	// a space carries the options into its identity and back
+	s := &Space{Fam: FamilyByName("rel3eq"), Regime: CommitTime, Gaps: []time.Duration{time.Hour}, Skews: []int{0}, Depth: 1,
+		Start: time.Date(2012, 9, 12, 7, 30, 3, 0, time.UTC), FirstChangeset: 77, LocMode: LocZeros, ReverseWays: true}
+	r := SpaceFromID(s.ID())
+	if !r.Start.Equal(s.Start) || r.FirstChangeset != 77 || r.LocMode != LocZeros || !r.ReverseWays || r.Config() != s.Config() {
+		t.Fatalf("space identity round trip: %+v", r)
+	}
+	u, _ := s.Initial()
+	if len(u.Changes) != 4 || len(u.Changes[1].Refs) != 3 {
+		t.Fatalf("initial upload of a space with ReverseWays: %+v", u)
+	}
+}
